@@ -114,7 +114,24 @@ func init() {
 			i := c.args[0].(Iface)
 			c.Return(XType{T: i.T})
 		},
-		// vhSymbolic() bool : true under the engine, false natively
+		// vhPick(name, n) int : a concrete value in [0,n), one forked state per value (no solver involved)
+	"vhPick": func(c *CallCtx) {
+		n := int(c.args[1].(*Term).U)
+		name := strArg(c.args[0])
+		for i := n - 1; i >= 0; i-- {
+			s := c.st
+			if i > 0 {
+				s = c.st.fork(c.ex)
+			}
+			v := BVC(64, uint64(i))
+			s.inputs = append(s.inputs, Input{Name: name, Kind: "i64", T: v})
+			c.ReturnOn(s, v)
+			if i > 0 {
+				c.ex.push(s)
+			}
+		}
+	},
+	// vhSymbolic() bool : true under the engine, false natively
 		"vhSymbolic": func(c *CallCtx) { c.Return(True) },
 	}
 }
@@ -141,6 +158,13 @@ func (ex *Exec) prove(st *State, cond *Term, label string) {
 	}
 	as := append(append([]*Term(nil), st.pc...), Not(cond))
 	r, model := ex.solver.CheckModel(as, want)
+	if r == "unknown" {
+		var by string
+		r, model, by = ex.solver.fallback(as, want, ex.fallbackBudget)
+		if by != "" {
+			ob.By = by
+		}
+	}
 	switch r {
 	case "unsat":
 		ob.Verdict = "proved"
@@ -250,5 +274,15 @@ func libStubs() map[string]StubFn {
 	m["math.Float32frombits"] = func(c *CallCtx) { c.Return(FPFromBits(c.args[0].(*Term))) }
 	m["math.IsNaN"] = func(c *CallCtx) { c.Return(FPIsNaN(c.args[0].(*Term))) }
 	m["runtime.Gosched"] = noop
+	// Comp.TypeOf(v): the universe's type object for v's dynamic type (xreflect internals not encoded)
+	typeOfDyn := func(c *CallCtx) {
+		i, ok := c.args[len(c.args)-1].(Iface)
+		if !ok {
+			unsupported("TypeOf(%T)", c.args[len(c.args)-1])
+		}
+		c.Return(XType{T: i.T})
+	}
+	m["(*github.com/cosmos72/gomacro/fast.Comp).TypeOf"] = typeOfDyn
+	m["(*github.com/cosmos72/gomacro/xreflect.Universe).TypeOf"] = typeOfDyn
 	return m
 }
